@@ -13,3 +13,24 @@ import (
 func Now() time.Time                  { return vclock.Now() }
 func Since(t time.Time) time.Duration { return vclock.Now().Sub(t) }
 func Until(t time.Time) time.Duration { return t.Sub(vclock.Now()) }
+
+// After and Sleep follow the harness clock too: they end when the harness clock (real time plus the offset the
+// harness added) has passed the deadline, so a harness that lets virtual time pass (vclock.Advance) makes
+// time-outs in the code under test fire without waiting for them in real time.
+func After(d time.Duration) <-chan time.Time {
+	ch := make(chan time.Time, 1)
+	deadline := vclock.Now().Add(d)
+	go func() {
+		for vclock.Now().Before(deadline) {
+			rem := deadline.Sub(vclock.Now())
+			if rem > 5*time.Millisecond {
+				rem = 5 * time.Millisecond
+			}
+			time.Sleep(rem)
+		}
+		ch <- vclock.Now()
+	}()
+	return ch
+}
+
+func Sleep(d time.Duration) { <-After(d) }
